@@ -48,7 +48,11 @@ def run(repo, scratch, prop=None):
         return res
     work = os.path.join(scratch, 'leafrepo')
     shutil.rmtree(work, ignore_errors=True)
-    subprocess.run(['rsync', '-a', '--exclude', 'target', '--exclude', '.git', repo.rstrip('/') + '/', work + '/'], check=True)
+    try:
+        subprocess.run(['rsync', '-a', '--exclude', 'target', '--exclude', '.git', repo.rstrip('/') + '/', work + '/'], check=True)
+    except Exception:
+        shutil.rmtree(work, ignore_errors=True)
+        shutil.copytree(repo, work, ignore=shutil.ignore_patterns('target', '.git'), symlinks=True)
     for m in mods:
         tgt = os.path.join(work, m['target'])
         if not os.path.exists(tgt):
